@@ -46,7 +46,7 @@ package masswallet
 //@ define cacheWF(m) = (forall qk_ string :: has(m, qk_) ==> outsWF(valAt[*wire.MsgTx](m, qk_)))
 
 //@ func (*NtfnsHandler).filterTx
-//@   props C19
+//@   props C19 C01
 //@   requires h != nil && wmWF(h.walletMgr) && h.mempool != nil && txWF(tx)
 //@   requires blockMeta != nil ==> recInCurBlk != nil
 //@   requires recsWF(recInCurBlk)
@@ -54,6 +54,7 @@ package masswallet
 //@   expand db.View
 //@   dead returns 1
 //@   at "cache[txIn.PreviousOutPoint.Hash] = prevTx" assert outsWF(prevTx)
+//@   at "continue"#1 assert[C01] !has(recInCurBlk, strOf(txIn.PreviousOutPoint.Hash[:]))
 //@   loop#1 invariant recsWF(recInCurBlk)
 //@   loop#1 invariant cacheWF(cache)
 //@   loop#1 invariant rec != nil && fresh(rec) && sameSlice(rec.MsgTx.TxOut, tx.TxOut) && fresh(rec.RelevantTxIn) && fresh(rec.RelevantTxOut)
@@ -144,3 +145,36 @@ package masswallet
 //@   loop#3 invariant forall qj_ int :: 0 <= qj_ && qj_ < old(len(msgTx.TxOut)) ==> msgTx.TxOut[qj_] == old(msgTx.TxOut[qj_])
 //@   loop#3 invariant validAmt(outAmounts) && validAmt(targetTxFee) && validAmt(adj) && changeOut == nil
 //@   at "break" assert[C02] amt(found) == amt(targetTxFee) + amt(outAmounts) + (b2i(changeOut != nil) * mathint(changeOut.Value)) && amt(found) == ghost("sumCredits", utxos)
+
+// ---- C02 / C09: the eligibility filter of automatic coin selection.  A coin is handed to the selector only if it is
+// mature, not spent, not spent by a pending transaction, and neither a staking nor a binding deposit.
+// reservation cache and node mempool lookups: observers (no effect on wallet state)
+//@ func (*WalletManager).UTXOUsed
+//@   trusted
+//@   pure
+//@   requires w != nil && op != nil
+//@ func Server.TxMemPool
+//@   pure
+//@   requires recv != nil
+//@   ensures result != nil
+
+//@ func (*WalletManager).getUtxosExcludeBindingAndStaking
+//@   props C02 C09
+//@   nopanic off
+//@   modifies *
+//@   only UTXOUsed TxMemPool CheckPoolOutPointSpend
+//@   closure#1 nopanic off
+//@   closure#1 modifies *
+//@   closure#1 closure#1 nopanic off
+//@   closure#1 closure#1 requires item != nil && w != nil && w.server != nil
+//@   closure#1 closure#1 modifies *
+//@   closure#1 closure#1 at "selector.submit(item)" assert[C02,C09] item.Confirmations >= item.Maturity && !item.Flags.SpentByUnmined && !item.Flags.Spent && item.Flags.Class != txmgr.ClassBindingUtxo && item.Flags.Class != txmgr.ClassStakingUtxo
+
+// ---- C01: a block is filtered only if it is the block the chain database holds at that height (stale tips answered
+// with ErrMaybeChainRevoked)
+//@ func (*NtfnsHandler).filterBlock
+//@   props C01
+//@   nopanic off
+//@   modifies *
+//@   only nothing
+//@   at "txLocs, err := massutil.NewBlock(block).TxLoc()" assert[C01] bytesEq(blockMeta.Loc.Hash, 0, blockMeta.Hash, 0, 32)
